@@ -123,6 +123,8 @@ type World struct {
 	Returned []int
 	foreign  *ipfslog.IPFSLog
 	WriterOf []int // current writer per replica (changes with setid)
+	// Partial: some replica has merged a partial copy of another (joinlast); see adopt
+	Partial bool
 }
 
 var writerRank []int
@@ -286,6 +288,9 @@ func (w *World) apply(o Op, st *Step) {
 		_, st.Err = w.Logs[o.A].Join(w.Logs[o.B], -1)
 		if st.Err == nil {
 			w.M.Join(w.ML[o.A], w.ML[o.B])
+			if w.Partial {
+				w.adopt(o.A)
+			}
 		}
 	case "joinlast":
 		// an unbounded merge from a partial copy of replica B: a log opened over B's newest N entries only (what a
@@ -308,6 +313,8 @@ func (w *World) apply(o Op, st *Step) {
 				us = append(us, w.UID[e.GetHash().String()])
 			}
 			w.M.JoinSet(w.ML[o.A], us)
+			w.Partial = true
+			w.adopt(o.A)
 		}
 	case "joinself":
 		_, st.Err = w.Logs[o.A].Join(w.Logs[o.A], -1)
@@ -339,6 +346,21 @@ func (w *World) apply(o Op, st *Step) {
 	default:
 		panic("seqx: unknown op " + o.K)
 	}
+}
+
+// adopt makes the model of replica i hold exactly the entries the log holds. Once a world contains a log with holes,
+// "merge = set union" is no longer what the statements promise (a merge walks the source from its heads and stops
+// at entries the destination already holds, so the history behind an entry that arrived without it is never
+// fetched); the properties over such states are self-consistency properties of the log's own entry set, and the
+// model is only the vehicle for judging them.
+func (w *World) adopt(i int) {
+	set := map[int]bool{}
+	for _, e := range w.Logs[i].GetEntries().Slice() {
+		if u, ok := w.UID[e.GetHash().String()]; ok {
+			set[u] = true
+		}
+	}
+	w.ML[i].Set = set
 }
 
 // Replay builds a fresh world and applies path.
